@@ -71,6 +71,12 @@ extern ssize_t mpt_connection_push(MPT_STRUCT(connection) *con, size_t len, cons
 					con->out.state |= MPT_OUTFLAG(Active);
 				}
 			}
+			else {
+				if (con->cid) {
+					deregisterCommand(&con->_wait, con->cid);
+				}
+				return ret;
+			}
 		}
 		/* use socket backend (has atomic guarantee for ID setup) */
 		else if ((ret = mpt_outdata_push(&con->out, con->out._idlen, buf)) < 0) {
